@@ -468,3 +468,23 @@ def rule_chunking(rep, tier):
     for d in modecheck.run_cases("C07", rid, tier, cases, None):
         rep.merge(d)
     rep.floor_discharged(rid, int(0.9 * len(cases)))
+    # D7: copies and re-initialisation, behaviourally (D1 / D2 are the structural counterparts)
+    rid = "C07.D7"
+    rep.rule(rid, "a copied XOF state continues like its original (absorbing or squeezing), and a re-initialised state behaves like a fresh one")
+    cases = []
+    copy_shapes = [(9, 0, 16, 5), (8, 0, 9, 0), (9, 5, 12, 0), (0, 8, 8, 0)] if tier == "quick" else \
+        [(ml, s1, s2, m2) for ml in (0, 7, 8, 9, 17) for (s1, m2) in ((0, 0), (0, 5), (0, 8), (3, 0), (8, 0), (13, 0)) for s2 in (1, 8, 19)]
+    re_shapes = [("plain", 8, 0), ("plain", 5, 3), ("fixed", 0, 0), ("custom", 0, 0)] if tier == "quick" else \
+        [(f, pre, sq) for f in ("plain", "fixed", "custom") for pre in (0, 5, 8, 16, 64) for sq in (0, 3, 8)]
+    for js, cname, layout, maxs, units in prep:
+        for va in (False, True):
+            nm = "ascon_xof%s" % ("a" if va else "")
+            for (ml, s1, s2, m2) in copy_shapes:
+                cases.append((js, cname, layout, "case_xof_copy", (va, ml, s1, s2, m2),
+                              "%s copy after absorbing %d, squeezing %d; then +%d in, %d out" % (nm, ml, s1, m2, s2), nm + "_copy"))
+            for (f, pre, sq) in re_shapes:
+                cases.append((js, cname, layout, "case_xof_reinit", (va, f, pre, sq, 9, 16),
+                              "%s reinit of a %s state after %d in, %d out" % (nm, f, pre, sq), nm + "_reinit"))
+    for d in modecheck.run_cases("C07", rid, tier, cases, None):
+        rep.merge(d)
+    rep.floor_discharged(rid, int(0.9 * len(cases)))
